@@ -691,6 +691,10 @@ func c13(c *Ctx) (*report.Result, error) {
 			res.Undec("O13.9", "skip-list obligations of O12.3", "", fmt.Sprintf("%d imported, at least 10 expected", n))
 		}
 	}
+	res.RuleDoc["O13.11"] = "what a translator mapped stays mapped: between its arrival and its hand-over a message is written by the translators and by nobody else - in Intercept and the stream wrapper's RecvMsg / SendMsg no call that receives the message can overwrite it (proto.Reset / Merge / Unmarshal, the message's own Reset, or a module function doing that); a roll-back to a snapshot taken before the translators ran hands the request on with the names of the side it came from"
+	checkOnlyTranslatorsWriteMessage(c, res, "O13.11")
+	res.RuleDoc["O13.12"] = "every message is handed, whole, to the visitor by both translator types (same analysis as O12.12 / O14.12): a short cut in front of the walk leaves the sites it did not look at unmapped, in one direction only - the round trip is no longer the identity"
+	checkTranslatorAlwaysVisits(c, res, "O13.12", []string{"translatorImpl", "saTranslator"})
 	res.RuleDoc["O13.10"] = "every blob is looked into before it is passed on: translateOneDataBlob returns a blob undecoded (with a nil error) only if it is nil or empty (same analysis as O12.4 / O14.2) - a blob that is waved through by its encoding label keeps the names the rest of the message had mapped, and the round trip does not restore them"
 	checkBlobExamined(c, res, "O13.10")
 	res.RuleDoc["O13.7"] = "translation, access control and repair keep no memory between messages: no shipped function of the interceptor, proto/compat, auth and collect packages stores into package-level state, receiver fields or sync.Maps after construction - a cache keyed by message type or content makes the treatment of one message depend on the ones before it"
